@@ -72,11 +72,11 @@ flush_before_rename!(c10_unspent_f0, 1, 0);
 flush_before_rename!(c10_unspent_0_ok, 0, usize::MAX);
 
 // C02: file name; C07 unspent_rows: row content with real formatting (one entry, symbolic small index)
-//@ id=C02,C07 tier=extra name=c07_unspent_row timeout=5400 role=unspent_rows bound=1-entry,index<10-symbolic,height/value-single-digit,start-7,last-9 mem=20 fn=UnspentCsvDump::on_complete,UnspentCsvDump::on_start
+//@ id=C02,C07 tier=extra name=c07_unspent_row timeout=5400 role=unspent_rows bound=1-entry,index<10-symbolic,height/value-single-digit,start-3,last-5 mem=20 fn=UnspentCsvDump::on_complete,UnspentCsvDump::on_start
 #[kani::proof]
 #[kani::unwind(120)]
 fn c07_unspent_row() { unspent_row_body(false) }
-//@ id=C02,C07 tier=quick name=c07_unspent_row_m timeout=900 role=unspent_rows bound=1-entry,index<10-symbolic,height/value-single-digit,start-7,last-9,structured-format-model mem=20 fn=UnspentCsvDump::on_complete,UnspentCsvDump::on_start
+//@ id=C02,C07 tier=quick name=c07_unspent_row_m timeout=900 role=unspent_rows bound=1-entry,index<10-symbolic,height/value-single-digit,start-3,last-5,structured-format-model mem=20 fn=UnspentCsvDump::on_complete,UnspentCsvDump::on_start
 #[kani::proof]
 #[kani::unwind(120)] // header 35 + row 73 bytes compared in one loop
 fn c07_unspent_row_m() { unspent_row_body(true) }
@@ -89,9 +89,9 @@ fn unspent_row_body(structured: bool) {
     let val: u64 = kani::any();
     kani::assume(idx < 10 && h < 10 && val < 10);
     let mut cb = mk_dump(256);
-    match cb.on_start(7) { Ok(()) => {}, Err(e) => { core::mem::forget(e); } }
+    match cb.on_start(3) { Ok(()) => {}, Err(e) => { core::mem::forget(e); } }
     cb.unspents.insert(key(0xab, idx), common::UnspentValue { block_height: h, value: val, address: String::from("a") });
-    match cb.on_complete(9) { Ok(()) => {}, Err(e) => { core::mem::forget(e); assert!(false, "C07:completion_ok"); return; } }
+    match cb.on_complete(5) { Ok(()) => {}, Err(e) => { core::mem::forget(e); assert!(false, "C07:completion_ok"); return; } }
     // txid bytes [ab, 00 x31] are displayed reversed: 62 zeros then "ab"
     let mut want = [0u8; 160];
     let head = b"txid;indexOut;height;value;address\n";
@@ -106,7 +106,7 @@ fn unspent_row_body(structured: bool) {
         assert!(gfs::ACCEPTED.v[3] == n, "C07:header_plus_one_row_per_entry");
         let mut i = 0;
         while i < n && i < gfs::LOGCAP { assert!(gfs::WLOG.v[3][i] == want[i], "C07:row_carries_txid_index_height_value_address"); i += 1; }
-        let wn = b"unspent-7-9.csv";
+        let wn = b"unspent-3-5.csv";
         assert!(gfs::RENAMES.v == 1 && gfs::RENAME_TO_LEN.v[0] == wn.len(), "C02:file_name_carries_start_and_last_height");
         let mut i = 0;
         while i < wn.len() { assert!(gfs::RENAME_TO.v[0][i] == wn[i], "C02:file_name_carries_start_and_last_height"); i += 1; }
